@@ -17,6 +17,7 @@ Lens == [i \in 1..Len(Ev.recs) |-> Ev.recs[i] - oh]
 
 WriteStep ==
   LET need == Len(Chunks(Ev.w)) IN
+  /\ Mark(Ev.panic # "", "I_RoundTrip", l)
   /\ Mark(\E i \in 1..Len(Ev.recs) : Ev.recs[i] > pl + oh \/ Ev.recs[i] < 0, "I_RecordLimit", l)
   /\ IF need > outLeft
        THEN /\ Mark(~Ev.err \/ Len(Ev.recs) > outLeft, "I_CounterOverflow", l)
